@@ -152,21 +152,115 @@ def typed_coords(kind, lat, lon, alt):
     raise ValueError(kind)
 
 
-def new_station(lat_deg, lon_deg, alt, mask=None, kind="float-tuple"):
+# ways a caller hands a horizon mask over when the station is created (`mask=` of create_station / TopocentricFrame):
+# kind of object x entry point.  "seq" kinds are stored (np.asarray), None / empty sequences mean "no mask", an ndarray is
+# rejected by the `if mask` truth-value test (ValueError; known limitation, NOT_COVERED).
+MASK_OBJ_KINDS = {"list": "seq", "tuple": "seq", "list-of-arrays": "seq", "tuple-of-lists": "seq", "list-np-scalars": "seq", "list-int-elev": "seq",
+                  "ndarray": "arr", "ndarray-F-order": "arr", "none": "absent", "omitted": "absent", "empty-list": "eseq", "empty-tuple": "eseq"}
+MASK_ENTRIES = ["create_station", "create_station-positional", "TopocentricFrame", "TopocentricFrame-positional"]
+PARENTS = ["default", "WGS84", "ITRF", "PEF", "TIRF"]
+
+
+def mask_object(okind, az, el):
+    """the object of kind `okind` holding the table (az, el); also the exact table it denotes (Python floats)"""
+    import numpy as np
+    az, el = [float(a) for a in az], [float(e) for e in el]
+    if okind == "list":
+        return [list(az), list(el)], (az, el)
+    if okind == "tuple":
+        return (tuple(az), tuple(el)), (az, el)
+    if okind == "list-of-arrays":
+        return [np.array(az, dtype=float), np.array(el, dtype=float)], (az, el)
+    if okind == "tuple-of-lists":
+        return (list(az), list(el)), (az, el)
+    if okind == "list-np-scalars":
+        return [[np.float64(a) for a in az], [np.float64(e) for e in el]], (az, el)
+    if okind == "list-int-elev":      # elevations given as whole numbers (Python ints) next to float azimuths
+        iel = [int(round(e)) for e in el]
+        return [list(az), iel], (az, [float(e) for e in iel])
+    if okind == "ndarray":
+        return np.array([az, el], dtype=float), (az, el)
+    if okind == "ndarray-F-order":
+        return np.asfortranarray(np.array([az, el], dtype=float)), (az, el)
+    if okind in ("none", "omitted"):
+        return None, ([], [])
+    if okind == "empty-list":
+        return [], ([], [])
+    if okind == "empty-tuple":
+        return (), ([], [])
+    raise ValueError(okind)
+
+
+def new_station(lat_deg, lon_deg, alt, mask=None, kind="float-tuple", mask_given=None, entry="create_station", parent="default", equatorial=False):
     """returns the station created by beyond from coordinates of the given numeric kind; `st.c11_deg` holds the exact
-    values (as Python floats) of the coordinates that were passed in"""
-    from beyond.frames.stations import create_station
+    values (as Python floats) of the coordinates that were passed in.
+    mask: assigned AFTER creation (`st.mask = array`).  mask_given = (okind, az, el): handed over AT creation through `entry`
+    (create_station(..., mask=obj), or TopocentricFrame(name, o, c, mask=obj) on the orientation and centre of a station made without).
+    parent: the `parent_frame` argument ("default" = not passed).  Exceptions of the constructor propagate (leftovers are removed)."""
+    import numpy as np
+    from beyond.frames import frames
+    from beyond.frames.stations import create_station, TopocentricFrame
     _setup()
     name = f"C11s{next(_counter)}"
     coords = typed_coords(kind, lat_deg, lon_deg, alt)
     vals = [float(c) for c in coords]
-    st = create_station(name, coords)
+    pf = None if parent == "default" else getattr(frames, parent)
+    kw = {}
+    if equatorial:
+        kw["equatorial"] = True
+    extra = []
+    if mask_given is not None:
+        okind = mask_given[0]
+        obj, _tbl = mask_object(*mask_given)
+    if mask_given is None or entry.startswith("TopocentricFrame"):
+        st = create_station(name, coords, **kw) if pf is None else create_station(name, coords, parent_frame=pf, **kw)
+        if mask_given is not None:
+            base = st
+            try:
+                if okind == "omitted":
+                    st = TopocentricFrame(name + "b", base.orientation, base.center)
+                elif entry.endswith("positional"):
+                    st = TopocentricFrame(name + "b", base.orientation, base.center, obj)
+                else:
+                    st = TopocentricFrame(name + "b", base.orientation, base.center, mask=obj)
+            except Exception:
+                drop_station(base)
+                raise
+            extra = [name + "b"]
+    else:
+        try:
+            if okind == "omitted":
+                st = create_station(name, coords, **kw) if pf is None else create_station(name, coords, pf, **kw)
+            elif entry.endswith("positional"):
+                st = create_station(name, coords, pf or frames.WGS84, obj, **kw)
+            elif pf is None:
+                st = create_station(name, coords, mask=obj, **kw)
+            else:
+                st = create_station(name, coords, mask=obj, parent_frame=pf, **kw)
+        except Exception:
+            drop_by_name(name, (pf or frames.WGS84).orientation, (pf or frames.WGS84).center)
+            raise
     st.c11_deg = vals
     st.c11_kind = kind
+    st.c11_name = name
+    st.c11_extra = extra
+    st.c11_given = obj if mask_given is not None else None
     if mask is not None:
-        import numpy as np
         st.mask = np.array(mask, dtype=float)
     return st
+
+
+def _detach(leaf, parent, name):
+    leaf.neighbors.pop(parent, None)
+    parent.neighbors.pop(leaf, None)
+    seen, todo = {parent}, [parent]
+    while todo:
+        n = todo.pop()
+        n.routes.pop(name, None)
+        for m in n.neighbors:
+            if m not in seen:
+                seen.add(m)
+                todo.append(m)
 
 
 def drop_station(st):
@@ -174,20 +268,27 @@ def drop_station(st):
     quadratic in the number of nodes, so thousands of registered stations would make every later frame change crawl.
     A station is a leaf of both graphs, so the routes between the remaining nodes are untouched."""
     from beyond.frames import frames, center, orient
-    name = st.name
-    for leaf, parent in ((st.orientation, st.orientation.parent), (st.center.node, center.Earth.node)):
-        leaf.neighbors.pop(parent, None)
-        parent.neighbors.pop(leaf, None)
-        seen, todo = {parent}, [parent]
-        while todo:
-            n = todo.pop()
-            n.routes.pop(name, None)
-            for m in n.neighbors:
-                if m not in seen:
-                    seen.add(m)
-                    todo.append(m)
+    name = getattr(st, "c11_name", st.name)
+    parent_c = next((n for n in st.center.node.neighbors), center.Earth.node)
+    if getattr(st.orientation, "parent", None) is not None:     # equatorial stations share the EME2000 orientation: nothing to detach
+        _detach(st.orientation, st.orientation.parent, name)
+        if f"{name}_to_{st.orientation.parent.name}" in orient.Orientation.__dict__:
+            delattr(orient.Orientation, f"{name}_to_{st.orientation.parent.name}")
+    _detach(st.center.node, parent_c, name)
+    for nm in [name] + list(getattr(st, "c11_extra", [])):
+        frames.dynamic.pop(nm, None)
+    if f"{name}_to_{parent_c.name}" in center.Center.__dict__:
+        delattr(center.Center, f"{name}_to_{parent_c.name}")
+
+
+def drop_by_name(name, parent_orientation, parent_center):
+    """same, for a station whose creation raised after its centre / orientation were linked (no station object to start from)"""
+    from beyond.frames import frames, center, orient
+    for parent in (parent_orientation, parent_center.node):
+        for leaf in [n for n in parent.neighbors if n.name == name]:
+            _detach(leaf, parent, name)
     frames.dynamic.pop(name, None)
-    for cls, attr in ((orient.Orientation, f"{name}_to_{st.orientation.parent.name}"), (center.Center, f"{name}_to_{center.Earth.name}")):
+    for cls, attr in ((orient.Orientation, f"{name}_to_{parent_orientation.name}"), (center.Center, f"{name}_to_{parent_center.name}")):
         if attr in cls.__dict__:
             delattr(cls, attr)
 
@@ -627,6 +728,188 @@ def matMul3 (a b : List (List R)) : List (List R) :=
 """
 
 
+MASK_PRELUDE = """/-! ## the horizon mask: from the `mask=` argument to `self.mask`, and the formulas of `get_mask` -/
+
+/-- what a caller can hand over as `mask=` to `create_station` / `TopocentricFrame`: nothing or `None`; an empty list / tuple;
+a list / tuple of two rows `[[az…], [el…]]` of equal length (given here by its columns); a 2xN `numpy.ndarray` (by its columns) -/
+inductive MaskArg where
+  | absent
+  | emptySeq
+  | seq (tbl : List (R × R))
+  | arr (tbl : List (R × R))
+
+/-- what `self.mask` holds: `None`, a 2xN array (by its columns), or an array that is not 2xN (indexing `[0, :]` fails) -/
+inductive MaskStore where
+  | none
+  | table (tbl : List (R × R))
+  | junk
+
+/-- outcome of the constructor's handling of `mask=`: an exception, or the value stored in `self.mask` -/
+inductive MaskInit where
+  | raises
+  | stored (m : MaskStore)
+
+inductive PyTruth where
+  | isTrue
+  | isFalse
+  | raises
+
+/-- Python's `bool(mask)`: `None` and empty sequences are false, a sequence of two rows is true (whatever the rows hold), a numpy array
+with 0 or with 2 and more elements raises ValueError ("the truth value of an array … is ambiguous") -/
+def maskTruth : MaskArg → PyTruth
+  | .absent => .isFalse
+  | .emptySeq => .isFalse
+  | .seq _ => .isTrue
+  | .arr _ => .raises
+
+/-- `np.asarray(mask)` / `np.array(mask)`: the same numbers as a (new, for sequences) float array; `None` and `[]` give arrays that are not 2xN -/
+def npAsarray : MaskArg → MaskInit
+  | .absent => .stored .junk
+  | .emptySeq => .stored .junk
+  | .seq tbl => .stored (.table tbl)
+  | .arr tbl => .stored (.table tbl)
+
+"""
+
+GET_MASK_SHAPE = [
+    "if self.mask is None:\n    raise ValueError(…)",
+    "azim %= <period>",
+    "if azim in self.mask[0, :]:\n    return self.mask[1, np.where(azim == self.mask[0, :])[0][0]]",
+    "for next_i, mask_azim in enumerate(self.mask[0, :]):\n    if <stop>:\n        break\nelse:\n    next_i = 0",
+    "x0, y0 = self.mask[:, next_i - 1]",
+    "x1, y1 = self.mask[:, next_i]",
+    "if next_i - 1 == -1:\n    x0 = <wrap>",
+    "return <interp>",
+]
+
+
+def _no_docstring(body):
+    return body[1:] if body and isinstance(body[0], ast.Expr) and isinstance(getattr(body[0], "value", None), ast.Constant) \
+        and isinstance(body[0].value.value, str) else body
+
+
+def _mask_value_expr(e, what):
+    """Lean text (type MaskInit) of the expression whose value goes to `self.mask`, in terms of the argument `mask`"""
+    if isinstance(e, ast.Constant) and e.value is None:
+        return "MaskInit.stored MaskStore.none"
+    if isinstance(e, ast.Call) and ast.unparse(e.func) in ("np.asarray", "np.array") and len(e.args) == 1 and not e.keywords \
+            and ast.unparse(e.args[0]) == "mask":
+        return "npAsarray mask"
+    if isinstance(e, ast.IfExp) and ast.unparse(e.test) == "mask":
+        return ("(match maskTruth mask with\n    | .raises => MaskInit.raises\n"
+                f"    | .isTrue => {_mask_value_expr(e.body, what)}\n    | .isFalse => {_mask_value_expr(e.orelse, what)})")
+    raise py2lean.Untranslatable(f"{what}: the value stored in self.mask is no longer None / np.asarray(mask) chosen by the truth value of mask: "
+                                 + ast.unparse(e))
+
+
+def mask_path_lean(stree, ftree):
+    """Lean definitions regenerated from stations.py: `initMask` (TopocentricFrame.__init__), `createStationMask` (create_station),
+    `maskReduce`, `maskStops`, `maskWrapX0`, `maskInterp` (get_mask).  Raises Untranslatable when the code no longer has the shape
+    the state-machine model of Station.tpl (plain attribute `mask`, read only by get_mask) and its scan loop were written for."""
+    U = py2lean.Untranslatable
+    tr = py2lean.Tr()
+    cls = next((s for s in stree.body if isinstance(s, ast.ClassDef) and s.name == "TopocentricFrame"), None)
+    fcls = next((s for s in ftree.body if isinstance(s, ast.ClassDef) and s.name == "Frame"), None)
+    if cls is None or fcls is None or [ast.unparse(b) for b in cls.bases] != ["frames.Frame"]:
+        raise U("TopocentricFrame is no longer a direct subclass of frames.Frame")
+    # `mask` is a plain instance attribute: no descriptor, no attribute hooks, nobody but __init__ writes it, nobody but get_mask reads it
+    for c in (cls, fcls):
+        for s in c.body:
+            names = [s.name] if isinstance(s, (ast.FunctionDef, ast.ClassDef)) else \
+                [n for t in getattr(s, "targets", [getattr(s, "target", None)]) if t is not None for n in tr.target_names(t)]
+            for n in names:
+                if n in ("mask", "__setattr__", "__getattr__", "__getattribute__", "__slots__", "__init_subclass__", "__new__"):
+                    raise U(f"class {c.name} defines `{n}`: `station.mask` is no longer a plain attribute")
+        if c.decorator_list or c.keywords:
+            raise U(f"class {c.name} has decorators / a metaclass")
+    for c in (cls, fcls):
+        for fn in [s for s in c.body if isinstance(s, ast.FunctionDef)]:
+            for node in ast.walk(fn):
+                if isinstance(node, ast.Attribute) and node.attr in ("mask", "__dict__") and (c.name, fn.name) not in (("TopocentricFrame", "__init__"), ("TopocentricFrame", "get_mask")):
+                    raise U(f"{c.name}.{fn.name} touches self.mask")
+                if isinstance(node, ast.Call) and ast.unparse(node.func) in ("setattr", "getattr", "vars", "delattr"):
+                    raise U(f"{c.name}.{fn.name} uses {ast.unparse(node.func)}()")
+    # --- TopocentricFrame.__init__
+    init = py2lean.find_function(stree, "TopocentricFrame.__init__")
+    a = init.args
+    if [x.arg for x in a.args] != ["self", "name", "orientation", "center", "mask"] or [ast.unparse(d) for d in a.defaults] != ["None"] \
+            or a.vararg or a.kwarg or a.kwonlyargs or a.posonlyargs or init.decorator_list:
+        raise U("TopocentricFrame.__init__ signature changed")
+    body = _no_docstring(init.body)
+    if len(body) != 2 or not isinstance(body[0], ast.Assign) or [ast.unparse(t) for t in body[0].targets] != ["self.mask"] \
+            or ast.unparse(body[1]) != "super().__init__(name, orientation, center)":
+        raise U("TopocentricFrame.__init__ is no longer `self.mask = …; super().__init__(name, orientation, center)`: " + "; ".join(ast.unparse(s) for s in body))
+    out = ["/-- `TopocentricFrame.__init__`: `" + ast.unparse(body[0]) + "` -/\ndef initMask (mask : MaskArg) : MaskInit :=\n  "
+           + _mask_value_expr(body[0].value, "TopocentricFrame.__init__") + "\n\n"]
+    finit = py2lean.find_function(ftree, "Frame.__init__")
+    for node in ast.walk(finit):
+        if isinstance(node, ast.Attribute) and isinstance(node.ctx, ast.Store) and node.attr not in ("name", "orientation", "center"):
+            raise U("Frame.__init__ stores self." + node.attr)
+    # --- create_station: `mask` goes unchanged, and only, to TopocentricFrame(name, o, c, mask=mask)
+    cfn = py2lean.find_function(stree, "create_station")
+    a = cfn.args
+    if [x.arg for x in a.args] != ["name", "latlonalt", "parent_frame", "mask", "equatorial"] \
+            or [ast.unparse(d) for d in a.defaults] != ["frames.WGS84", "None", "False"] or a.vararg or a.kwarg or a.kwonlyargs or a.posonlyargs or cfn.decorator_list:
+        raise U("create_station signature changed (name, latlonalt, parent_frame=frames.WGS84, mask=None, equatorial=False)")
+    uses = [n for n in ast.walk(cfn) if isinstance(n, ast.Name) and n.id == "mask"]
+    cbody = _no_docstring(cfn.body)
+    if len(uses) != 1 or not isinstance(cbody[-1], ast.Return) or ast.unparse(cbody[-1]) != "return TopocentricFrame(name, o, c, mask=mask)" \
+            or sum(isinstance(n, ast.Return) for n in ast.walk(cfn)) != 1:
+        raise U("create_station no longer hands `mask` unchanged (and only) to `return TopocentricFrame(name, o, c, mask=mask)`")
+    eq = next((s for s in cbody if isinstance(s, ast.If) and ast.unparse(s.test) == "equatorial"), None)
+    if eq is None or [ast.unparse(s) for s in eq.body] != ["o = orient.EME2000"] or len(eq.orelse) != 4 \
+            or ast.unparse(eq.orelse[0]) != "o = orient.TopocentricOrientation(name, latlonalt, parent=parent_frame.orientation)" \
+            or ast.unparse(eq.orelse[3]) != "o + parent_frame.orientation":
+        raise U("create_station: the `if equatorial: o = orient.EME2000 else: o = TopocentricOrientation(…)` choice changed")
+    if "c = center.Center(name, body=parent_frame.center.body)" not in [ast.unparse(s) for s in cbody]:
+        raise U("create_station: the centre is no longer Center(name, body=parent_frame.center.body)")
+    out.append("/-- `create_station(name, latlonalt, parent_frame, mask, equatorial)`: `mask` is used once, in `return TopocentricFrame(name, o, c, mask=mask)` -/\n"
+               "def createStationMask (mask : MaskArg) : MaskInit := initMask mask\n\n")
+    # --- get_mask: statement shape + the formulas
+    g = py2lean.find_function(stree, "TopocentricFrame.get_mask")
+    if [x.arg for x in g.args.args] != ["self", "azim"] or g.args.defaults or g.decorator_list:
+        raise U("get_mask signature changed")
+    gb = _no_docstring(g.body)
+    holes = {}
+
+    def shape(i, s):
+        if i == 0 and isinstance(s, ast.If) and not s.orelse and len(s.body) == 1 and isinstance(s.body[0], ast.Raise) \
+                and isinstance(s.body[0].exc, ast.Call) and ast.unparse(s.body[0].exc.func) == "ValueError":
+            return ast.unparse(s.test) == "self.mask is None"
+        if i == 1 and isinstance(s, ast.AugAssign) and isinstance(s.op, ast.Mod) and ast.unparse(s.target) == "azim":
+            holes["period"] = s.value
+            return True
+        if i == 3 and isinstance(s, ast.For) and len(s.body) == 1 and isinstance(s.body[0], ast.If) and not s.body[0].orelse:
+            holes["stop"] = s.body[0].test
+            t = copy.deepcopy(s)
+            t.body[0].test = ast.Name("STOP", ast.Load())
+            return ast.unparse(t) == GET_MASK_SHAPE[3].replace("<stop>", "STOP")
+        if i == 6 and isinstance(s, ast.If) and not s.orelse and len(s.body) == 1 and isinstance(s.body[0], ast.Assign) \
+                and ast.unparse(s.test) == "next_i - 1 == -1" and [ast.unparse(t) for t in s.body[0].targets] == ["x0"]:
+            holes["wrap"] = s.body[0].value
+            return True
+        if i == 7 and isinstance(s, ast.Return) and s.value is not None:
+            holes["interp"] = s.value
+            return True
+        if i in (2, 4, 5):
+            return ast.unparse(s) == GET_MASK_SHAPE[i]
+        return False
+
+    if len(gb) != len(GET_MASK_SHAPE) or not all(shape(i, s) for i, s in enumerate(gb)):
+        bad = next((i for i, s in enumerate(gb) if i >= len(GET_MASK_SHAPE) or not shape(i, s)), len(gb))
+        raise U(f"get_mask no longer has the statements the scan-loop model was written for (statement {bad}: expected `{GET_MASK_SHAPE[min(bad, len(GET_MASK_SHAPE) - 1)]}`)")
+    free = {k: sorted({n.id for n in ast.walk(v) if isinstance(n, ast.Name)} - {"np"}) for k, v in holes.items()}
+    if free["period"] or free["wrap"] or not set(free["stop"]) <= {"mask_azim", "azim"} or not set(free["interp"]) <= {"x0", "y0", "x1", "y1", "azim"}:
+        raise U(f"get_mask: unexpected variables in its formulas: {free}")
+    out.append("/-- `azim %= …` of `get_mask` -/\ndef maskReduce (azim : R) : R :=\n  "
+               + tr.expr(ast.BinOp(ast.Name("azim", ast.Load()), ast.Mod(), holes["period"])) + "\n\n")
+    out.append("/-- the test that ends the scan loop of `get_mask` -/\nabbrev maskStops (mask_azim azim : R) : Prop :=\n  " + tr.expr(holes["stop"]) + "\n\n")
+    out.append("/-- `x0` of the wrap-around segment (`if next_i - 1 == -1: x0 = …`) -/\ndef maskWrapX0 : R :=\n  " + tr.expr(holes["wrap"]) + "\n\n")
+    out.append("/-- the value `get_mask` returns between the nodes `(x0, y0)` and `(x1, y1)` -/\ndef maskInterp (x0 y0 x1 y1 azim : R) : R :=\n  "
+               + tr.expr(holes["interp"]) + "\n\n")
+    return "".join(out)
+
+
 def build_generated():
     """text of the generated Lean body + dict of numeric self-check values"""
     tr = py2lean.Tr()
@@ -683,6 +966,10 @@ def build_generated():
     parts.append("/-- the conversion `create_station` applies to latitude and longitude (a Python list, so element by element and without a\n"
                  "common dtype): `latlonalt[:2] = np.radians(latlonalt[:2])`; the altitude is passed on as given -/\n"
                  f"def stationRadians (deg : R) : R :=\n  {tr.expr(rad)}\n\n")
+    # 3c. stations.py: the path of the `mask=` argument from create_station / TopocentricFrame(...) to `self.mask`, and the
+    #     shape of get_mask (the hand-written scan-loop model of Station.tpl was written for exactly these statements)
+    parts.append(MASK_PRELUDE)
+    parts.append(mask_path_lean(ast.parse(open(spath).read()), _tree("frames", "frames.py")))
     # 4. orient.py: the topocentric matrix
     otree = _tree("frames", "orient.py")
     ofn = py2lean.find_function(otree, "TopocentricOrientation.__init__")
